@@ -15,7 +15,16 @@ for sid in sorted(m):
     else:
         caught = "**not by the quick check**"
     rows.append("| %s | %s | %s | %s |" % (sid, ", ".join(files), caught, notes.get(sid, "")))
+PART2_NOTE = """Read with these corrections in mind (details in Part I):
+* "plan.json", cover runs and canary builds (II.3) do not exist: plans are `plan/*.py`, vacuity is the `VC_REACH` assertion plus required obligation ids (I.3).
+* II.6: native witnesses are `replay_src/witness_c*.c` (compiled and run by the runner when their obligation fails), not `replay/witness_F-*.c`.
+* II.7 is the plan per property; what is actually under contract is I.4 and INVENTORY.md. In particular the ghost-rank list invariant and the
+  full segment partition invariant of II.4.1 were not built, and the geometry enumeration of II.2.1 became per-slice-index runs.
+* II.8 describes the five defects as found on the original tree with the *planned* repairs; they are repaired (I.5).
+* II.9: the guard name in MANIFEST.hooks is a placeholder (no hooks); tiers, K values and timings are those of STATUS.md / INVENTORY.md.
+
+"""
 p1 = open(os.path.join(V, "DESIGN_PART1.md")).read().replace("SEEDTABLE", "\n".join(rows))
 p2 = open(os.path.join(V, "DESIGN_PART2.md")).read()
-open(os.path.join(V, "DESIGN.md"), "w").write(p1 + "\n\n" + "=" * 92 + "\n\n# Part II — the design as written before the build (kept for reference; Part I overrides)\n\n" + p2)
+open(os.path.join(V, "DESIGN.md"), "w").write(p1 + "\n\n" + "=" * 92 + "\n\n# Part II — the design as written before the build (kept for reference; Part I overrides)\n\n" + PART2_NOTE + p2)
 print("DESIGN.md written", len(p1.splitlines()) + len(p2.splitlines()), "lines")
